@@ -41,7 +41,49 @@ RowFails(ev) ==
              tol == IF ev.mono THEN Micro(10 + 10 * ev.mult) ELSE Micro(2000 * ev.mult) IN
          IF FWithin(ev.res, want, tol) THEN {} ELSE {"entry_mass_not_added"}
 
+(* ---------------------------------------------------------------------------------------------------- *)
+(* C03: the mass calculator and the composition calculator agree.                                          *)
+(* A returned composition is a sequence of [sym, neg, c0, c1, c2]: count = +-(c0 + c1*1e-4 + c2*1e-8).    *)
+CountMass(m, e) == LET v == FAdd(FMulInt(m, e.c0), FAdd(FDivE4(FMulInt(m, e.c1)), FDivE4(FDivE4(FMulInt(m, e.c2))))) IN
+                   IF e.neg THEN FNeg(v) ELSE v
+KnownSym(sym, mono) == IF mono THEN KnownMono(sym) ELSE KnownAvg(sym)
+Comp8Resolvable(comp, mono) == \A q \in 1..Len(comp) : KnownSym(comp[q].sym, mono)
+Comp8Mass(comp, mono) == FSum([ q \in 1..Len(comp) |-> CountMass(AtomMass(comp[q].sym, mono), comp[q]) ])
+
+(* 5 ppm of x *)
+Ppm5(x) == FDivE4(FDivE4(FMulInt(FAbs(x), 500)))
+
+(* k = "agree": mass(...) vs comp_mass(...) with the same options; ev.modMass = mass(...) - mass of the stripped peptide *)
+AgreeFails(ev) ==
+    IF ev.out # "ret" THEN {"raised_" \o ev.out}
+    ELSE IF ~Comp8Resolvable(ev.comp, ev.mono) THEN {}      \* an element outside the independent table: not judged
+    ELSE LET viaComp == FAdd(Comp8Mass(ev.comp, ev.mono), ev.delta)
+             tol == IF ev.mono THEN Micro(100) ELSE FAdd(Micro(1000), Ppm5(ev.modMass)) IN
+         IF FWithin(ev.massRes, viaComp, tol) THEN {} ELSE {"mass_differs_from_mass_of_composition_plus_delta"}
+
+(* k = "estimate": comp(estimate_delta = TRUE): the estimated composition has the same monoisotopic mass *)
+EstimateFails(ev) ==
+    IF ev.out # "ret" THEN {"raised_" \o ev.out}
+    ELSE IF ~Comp8Resolvable(ev.comp, TRUE) THEN {}
+    ELSE IF FWithin(ev.massRes, Comp8Mass(ev.comp, TRUE), Micro(100)) THEN {} ELSE {"estimated_composition_has_another_mass"}
+
+(* k = "rowagree": a vocabulary row; judged only when the raw row passes the statement's predicates *)
+RowComp(pairs) == CompFromPairs([ q \in 1..Len(pairs) |-> <<pairs[q][1], pairs[q][2] * E4>> ])
+OnlyCHNOPS(pairs) == \A q \in 1..Len(pairs) : pairs[q][1] \in {"C", "H", "N", "O", "P", "S", "13C", "15N", "18O", "2H", "17O", "34S", "D"}
+RowSelfConsistent(ev) == /\ Resolvable(RowComp(ev.rowComp), TRUE)
+                         /\ FWithin(ev.rowMono, CompMass(RowComp(ev.rowComp), TRUE), Micro(50))
+                         /\ (~ev.mono => /\ Resolvable(RowComp(ev.rowComp), FALSE) /\ ev.rowAvg # <<>>
+                                          /\ FWithin(ev.rowAvg, CompMass(RowComp(ev.rowComp), FALSE), Micro(500)))
+RowAgreeFails(ev) ==
+    IF ev.db = "psimod" /\ ~RowSelfConsistent(ev) THEN {}
+    ELSE IF ~ev.mono /\ ~OnlyCHNOPS(ev.rowComp) THEN {}
+    ELSE IF ev.out = "bothraise" THEN {}     \* resolution of the spelling is C10's business; both paths agree it fails
+    ELSE AgreeFails(ev)
+
 Fails(ev) == CASE ev.k = "mass" -> MassFails(ev)
+               [] ev.k = "agree" -> AgreeFails(ev)
+               [] ev.k = "estimate" -> EstimateFails(ev)
+               [] ev.k = "rowagree" -> RowAgreeFails(ev)
                [] ev.k = "rowmass" -> RowFails(ev)
                [] OTHER -> {"unknown_event_kind"}
 (* ---------------- named deviations (recorded findings) ---------------- *)
@@ -70,11 +112,29 @@ Dev_C02_GlycanTabulatedAverage(ev) ==
        /\ (MassAgrees(ev, want, tol)
            \/ ("C02_AdductElectronCount" \in Devs /\ MassAgrees(ev, FAdd(want, excess), tol)))
 
-Dev(ev) == IF "C02_AdductElectronCount" \in Devs /\ Dev_C02_AdductElectronCount(ev) THEN "C02_AdductElectronCount"
+(* the same adduct defect seen from C03: mass() is (n-1)*q electrons heavier than the mass of comp() *)
+AgreeAdducts(ev) == IF ev.adductsArg # "" THEN ev.adductsArg
+                    ELSE IF Len(ev.A.adducts) > 0 THEN SubSeq(ev.A.adducts[1].v, 3, Len(ev.A.adducts[1].v)) ELSE ""
+Dev_C03_AdductElectronCount(ev) ==
+    /\ ev.k \in {"agree", "estimate"} /\ ev.out = "ret"
+    /\ AdductsExcessElectrons(AgreeAdducts(ev)) # 0
+    /\ LET mono == IF ev.k = "estimate" THEN TRUE ELSE ev.mono
+           viaComp == FAdd(Comp8Mass(ev.comp, mono), IF ev.k = "estimate" THEN FZero ELSE ev.delta)
+           tol == IF mono THEN Micro(100) ELSE FAdd(Micro(1000), Ppm5(ev.modMass)) IN
+       FWithin(FSub(ev.massRes, FMulInt(Electron, AdductsExcessElectrons(AgreeAdducts(ev)))), viaComp, tol)
+
+Dev(ev) == IF ev.k \in {"agree", "estimate"}
+           THEN (IF "C03_AdductElectronCount" \in Devs /\ Dev_C03_AdductElectronCount(ev) THEN "C03_AdductElectronCount" ELSE "")
+           ELSE IF ev.k # "mass" THEN ""
+           ELSE IF "C02_AdductElectronCount" \in Devs /\ Dev_C02_AdductElectronCount(ev) THEN "C02_AdductElectronCount"
            ELSE IF "C02_GlycanTabulatedAverage" \in Devs /\ Dev_C02_GlycanTabulatedAverage(ev) THEN "C02_GlycanTabulatedAverage"
            ELSE ""
 (* what the specification expected, printed with a non-ok verdict *)
-Detail(ev) == CASE ev.k = "mass" /\ ev.text = Write(ev.A, FALSE) /\ AllResolvable(ev.A, ev.mono) ->
+Detail(ev) == CASE ev.k \in {"agree", "rowagree"} /\ ev.out = "ret" /\ Comp8Resolvable(ev.comp, ev.mono) ->
+                      <<"mass", ev.massRes, "viaComp", FAdd(Comp8Mass(ev.comp, ev.mono), ev.delta)>>
+                [] ev.k = "estimate" /\ ev.out = "ret" /\ Comp8Resolvable(ev.comp, TRUE) ->
+                      <<"mass", ev.massRes, "viaComp", Comp8Mass(ev.comp, TRUE)>>
+                [] ev.k = "mass" /\ ev.text = Write(ev.A, FALSE) /\ AllResolvable(ev.A, ev.mono) ->
                       <<"want", PrecursorMass(ev.A, EffZ(ev), EffAdducts(ev), ev.iso, ev.loss, ev.mono, FALSE), "got", ev.res>>
                 [] OTHER -> <<>>
 Init == l = 1 /\ ResetCounters
